@@ -61,6 +61,11 @@ CHECKS = {
          "Every C10-style message up to 2/3 units plus queries of every formattable type family, at every capacity from 0 to beyond the full response: fits => identical bytes, does not fit => -225 once, buffer a prefix of the full response, never a panic; zero allocator calls in every run, including all strings up to length 3/4 over a lexical alphabet (error paths) with a pull-and-convert-everything handler.",
          "Trusted: the counting allocator (self-checked), ArrayVec as the fixed-capacity buffer. Capacities above 256 are not instantiated.",
          "DESIGN.md section 5 (C11)"),
+ "C04": ("exploration",
+         "exhaustive enumeration of all strings up to length n over one byte per lexical class, contextual continuations, grammar derivations and their single-point corruptions, judged by an independent three-valued IEEE 488.2 recogniser",
+         "Every string up to length 5 (quick) / 6 (thorough) over 28 class-representative bytes, every continuation up to length 4/5 behind 13 prefixes that put each data reader at offset 0, ~20k grammar derivations with all white-space placements and ~1M single-point corruptions. Well-formed inputs must be tokenized into exactly the 488.2 elements with exact byte ranges (and, where the headers exist, run successfully with handlers seeing exactly those data elements); inputs in a listed violation class must be refused with a command error by the tokenizer (lexical classes) or by Node::run (structural classes); everything else is not judged.",
+         "Trusted: refmodel/lex488.rs (~450 lines from 488.2 7.3-7.7, self-checked on accept/reject/unspecified tables). White space representatives SP/TAB; inputs the standard or the property leave open are classified unspecified (counted in the evidence).",
+         "DESIGN.md section 5 (C04)"),
 }
 
 NOT_YET = "check not built yet (planned: DESIGN.md section 5 describes the bounded exhaustive exploration that will decide it)"
